@@ -52,14 +52,14 @@ def stress_scripts(rng, n):
     out = []
     for _ in range(n):
         nk = rng.range(1, 3)
-        sc = cc.Script(20_000_000, 20_000_000, rng.choice([1, 2, 4]), cc.BIG_JCS, cc.pick_keys(rng, nk),
+        sc = cc.Script(5_000_000_000, 5_000_000_000, rng.choice([1, 2, 4]), cc.BIG_JCS, cc.pick_keys(rng, nk),
                        [[(rng.choice([20_000, 100_000, 300_000]), 1, rng.choice([0, 0, 5]))] for _ in range(nk)])
         for i in range(rng.range(8, 24)):
             sc.add(rng.choice([0, 0, 0, 1000, 30_000, 150_000]), "L", rng.below(nk))
         for i in range(rng.range(0, 6)):
             sc.add(rng.choice([0, 1000, 30_000, 400_000]), rng.choice(["G", "W"]), rng.below(nk))
         sc.meta["end"] = 1_500_000
-        sc.meta["wd"] = 3_000_000_000
+        sc.meta["wd"] = 60_000_000_000
         sc.trials = 3
         out.append(sc)
     return out
